@@ -25,6 +25,7 @@ PLAN = {
     "C06": [
         item("h_stream", "ans_msg", 1_600_000, 48_000_000, param=6, max_len=(1024, 16384)),
         item("h_stream", "range_msg", 1_600_000, 48_000_000, param=6, max_len=(1024, 16384)),
+        item("h_model", "c06_golden", 2, 2),  # byte-exact vectors from the project's documentation (case bytes ignored)
     ],
     "C07": [
         item("h_stream", "c07_range", 1_600_000, 48_000_000, max_len=(1024, 8192)),
